@@ -89,8 +89,9 @@ ASSUMPTIONS = [
     "real writer along some complete schedule), not all interleavings; the quick tier explores only a 5000-state part "
     "of the nested configuration (72 197 states), the thorough tier all of it",
     "materialised bytes = sizes of the reservations held between budget acquire and release (what the budget "
-    "controls); memory a user callback or a LazyTensor cache keeps is outside; the callback is handed the tensor "
-    "before the tensor lock is taken (D170, recorded)",
+    "controls); memory a user callback or a LazyTensor cache keeps is outside; since the fix of D170 the callback "
+    "runs under the tensor lock (lock order: tensor lock -> callback lock(s) -> budget), which both models follow; the "
+    "'touch' cases (callback evaluates the tensor) stay in the generators as a regression probe",
     "Layout (pairwise disjoint ranges) and Prealloc (zero start image no longer than the largest end) are hypotheses "
     "of the byte theorems, checked by the driver for every generated configuration (layoutb/preallocb); they are not "
     "derived from C07's theorems inside Lean; `size` is the budget reservation (for ExternalTensor the copy chunk), "
@@ -254,7 +255,7 @@ class SLock:
 
     def _resolve(self, ct):
         want = None
-        if ct.pool is not None and ct.phase == "pre":
+        if ct.pool is not None and ct.phase == "pre" and getattr(ct, "in_tensor", False):
             inner = self.sched.gcfg["pools"][ct.pool]["innerCb"]
             want = "cbin" if (inner and ct.pre_locks == 0) else "cb"
         else:
@@ -277,6 +278,8 @@ class SLock:
         self.owner = ct
         if role in ("cb", "cbin"):
             ct.pre_locks += 1
+        elif role == "tensor":
+            ct.in_tensor = True
         return True
 
     def release(self):
@@ -285,8 +288,8 @@ class SLock:
         ct = self.owner
         self.owner = None
         if self.role == "tensor":
-            # the tensor is finished: the thread's next lock belongs to its next tensor
-            ct.phase, ct.pre_locks = "pre", 0
+            # the tensor is finished: the thread's next tensor lock belongs to its next tensor
+            ct.phase, ct.pre_locks, ct.in_tensor = "pre", 0, False
 
     def locked(self):
         return self.owner is not None
@@ -1451,7 +1454,7 @@ def random_case(rng, big: bool, allow_nested=False, os_only=False):
     workers = rng.randint(2, 5 if big else 4)
     case = dict(mode=mode, workers=workers, cap=cap, shard=None, objs=objs, tensors=tensors)
     if rng.random() < 0.1 and len({t["obj"] for t in tensors}) < n:
-        case["touch"] = True  # the callback evaluates the tensor it is handed (D170)
+        case["touch"] = True  # the callback evaluates the tensor it is handed (regression probe for D170)
     if rng.random() < 0.08:
         # aligned layout: offsets of tensors larger than the threshold are multiples of max(4096, alignment),
         # the gaps are holes (serial writer) / preallocated zeros (parallel writer)
